@@ -3,9 +3,13 @@ package main
 import (
 	"flag"
 	"fmt"
+	"golang.org/x/tools/go/ssa"
 	"os"
 	"strconv"
 	"strings"
+	"time"
+	"verif/engine/internal/smt"
+	"verif/engine/internal/sym"
 
 	"verif/engine/internal/core"
 	"verif/engine/internal/props"
@@ -18,6 +22,27 @@ func debugFn(keys []string) {
 		os.Exit(2)
 	}
 	rep := core.NewReport("DBG", "quick", 0)
+	if pkg := os.Getenv("VERIF_INLINE_PKG"); pkg != "" {
+		for k := range w.Cx.Contracts {
+			if strings.Contains(k, pkg) {
+				delete(w.Cx.Contracts, k)
+			}
+		}
+		base := w.Cx.Loops
+		w.Cx.Loops = func(fn *ssa.Function, ord int) *sym.LoopSpec {
+			if fn.Pkg != nil && fn.Pkg.Pkg.Name() == pkg {
+				return nil
+			}
+			return base(fn, ord)
+		}
+		w.Cx.MaxVisits = 5
+		w.Cx.MaxPaths = 2000
+		if os.Getenv("VERIF_FEASIBLE") != "" {
+			sym.Feasible = func(pc []*smt.Term) bool {
+				return smt.Solve(pc, smt.Options{Timeout: 2 * time.Second, OnlyFirst: true}).Status != "unsat"
+			}
+		}
+	}
 	if contractMode {
 		props.RunJobs(w, rep, props.ContractJobs(w, rep, keys))
 	} else {
